@@ -32,6 +32,7 @@ var errLookedAtExceptions = map[string]string{
 	"E2 table.Lookup:Split1":                "table.email_localpart maps an address to its local part: a key that is not an address has no mapping (or maps to itself with allow_non_email) – the split error IS the not-found answer",
 	"E2 smtp.parseMessageDateTime:Parse1":   "the layouts are alternatives: a layout that does not fit is superseded by the next one, and when none fits the function refuses with an error of its own",
 	"E2 dns.exchange:ExchangeContext1":      "the configured servers are alternatives: a server that cannot be reached is superseded by the next one, and the last error is what the function returns when none answered",
+	"E2 dns.exchange:ExchangeContext2":      "the retry over TCP of a truncated reply: as for the first exchange, a server that fails is superseded by the next one and the last error is returned when none answered",
 	"E2 table.SetKey:Exec1":                 "upsert idiom: when the insert is refused (key exists) the update is tried and ITS error is the one reported",
 	"E1 pass_table.AuthPlain:Lookup1":       "the `ok` result is tested before the error: a failed table lookup is answered as 'unknown credentials'; authentication is refused on both paths, so C14 is not affected (the reply class for a broken table is outside the listed properties)",
 }
